@@ -261,7 +261,10 @@ class Model:
             for i, (e, lin, lb, ub) in enumerate(self.acons):
                 if i in self.compl:
                     v = self.compl[i]; vlb, vub = self.vars[v][0], self.vars[v][1]
-                    flags = (1 if vlb > -INF else 0) | (2 if vub < INF else 0)
+                    # flags describe the *constraint* side: 1 = no lower bound on the body (variable has a
+                    # finite upper bound only), 2 = no upper bound (finite lower bound only), 3 = free body
+                    # (variable bounded on both sides), 0 = body == 0 (free variable)
+                    flags = (1 if vub < INF else 0) | (2 if vlb > -INF else 0)
                     L.append('5 %d %d' % (flags, v + 1))
                 elif lb == -INF and ub == INF: L.append('3')
                 elif lb == -INF: L.append('1 ' + fmtnum(ub))
@@ -339,6 +342,24 @@ class Model:
                 if not ev(e, p, dv): return False
         except (EvalUndefined, ZeroDivisionError, OverflowError, ValueError):
             return None
+        return self._sos_ok(p, tol)
+
+    def _sos_ok(self, p, tol):
+        """SOS sets declared through suffixes: .sosno/.ref (positive set number: SOS1, negative: SOS2),
+        .sos/.sosref (all SOS2); members ordered by the reference value"""
+        sf = {name: vals for (kind, is_real, name, vals) in self.suffixes if kind == 0}
+        for nos, ref, all2 in (('sosno', 'ref', False), ('sos', 'sosref', True)):
+            if nos not in sf or ref not in sf: continue
+            groups = {}
+            for i, g in sf[nos].items():
+                if g: groups.setdefault(g, []).append(i)
+            for g, members in groups.items():
+                members.sort(key=lambda i: sf[ref].get(i, 0.0))
+                nz = [k for k, i in enumerate(members) if abs(p[i]) > tol]
+                if all2 or g < 0:
+                    if len(nz) > 2 or (len(nz) == 2 and nz[1] - nz[0] != 1): return False
+                else:
+                    if len(nz) > 1: return False
         return True
 
     def objval(self, p, k=0):
